@@ -258,4 +258,101 @@ theorem piece_ok_valid (l x : Bytes) (h : piece l = .ok x) : x = l ∧ valid l =
   · simp at h; exact ⟨h.symm, ‹_›⟩
   · simp at h
 
+theorem splitSpec_split (a t : Bytes) (h : LF ∉ a) :
+    splitSpec (a ++ LF :: t) = piece (stripCr a) :: splitSpec t := by
+  rw [splitSpec_eq, splitSpec_eq, linesOf_split a t h, tailOf_split a t h]; simp
+
+theorem decodeEof_split (a t : Bytes) (h : LF ∉ a) :
+    decodeEof (a ++ LF :: t) = (piece (stripCr a), t) := by
+  unfold decodeEof
+  rw [decode_split a t h]
+  have hp := piece_ne_none (stripCr a)
+  generalize piece (stripCr a) = p at hp
+  cases p with
+  | none => exact absurd rfl hp
+  | ok x => rfl
+  | err => rfl
+
+/-- `decode_eof` alone, on a buffer that still holds complete lines, yields the reference split -/
+theorem eofLoop_spec : ∀ (fuel : Nat) (s : Bytes), s.length + 2 ≤ fuel →
+    (eofLoop fuel s).1 = splitSpec s := by
+  intro fuel
+  induction fuel with
+  | zero => intro s h; omega
+  | succ n ih =>
+    intro s hs
+    rcases lf_split s with h | ⟨a, t, rfl, ha⟩
+    · obtain ⟨m, rfl⟩ : ∃ m, n = m + 1 := ⟨n - 1, by omega⟩
+      rw [eofLoop_tail m s h, splitSpec_eq, linesOf_of_not_mem s h, tailOf_of_not_mem s h]; simp
+    · have hlen : t.length + 2 ≤ n := by simp at hs; omega
+      rw [eofLoop, decodeEof_split a t ha, splitSpec_split a t ha]
+      have hp := piece_ne_none (stripCr a)
+      generalize hpe : piece (stripCr a) = p at hp
+      cases p with
+      | none => exact absurd rfl hp
+      | ok x => simp [ih t hlen]
+      | err => simp [ih t hlen]
+
+theorem eofAll_eq_splitSpec (s : Bytes) : eofAll s = splitSpec s :=
+  eofLoop_spec _ s (Nat.le_refl _)
+
+theorem lines_append_aux : ∀ (n : Nat) (x y : Bytes), x.length < n →
+    linesOf (x ++ y) = linesOf x ++ linesOf (tailOf x ++ y) ∧
+    tailOf (x ++ y) = tailOf (tailOf x ++ y) := by
+  intro n
+  induction n with
+  | zero => intro x y h; omega
+  | succ n ih =>
+    intro x y hx
+    rcases lf_split x with h | ⟨a, t, rfl, ha⟩
+    · simp [linesOf_of_not_mem x h, tailOf_of_not_mem x h]
+    · have hlen : t.length < n := by simp at hx; omega
+      have e : a ++ LF :: t ++ y = a ++ LF :: (t ++ y) := by simp
+      rw [e, linesOf_split a (t ++ y) ha, tailOf_split a (t ++ y) ha, linesOf_split a t ha,
+        tailOf_split a t ha]
+      obtain ⟨h1, h2⟩ := ih t y hlen
+      exact ⟨by rw [h1]; simp, h2⟩
+
+theorem lines_append (x y : Bytes) :
+    linesOf (x ++ y) = linesOf x ++ linesOf (tailOf x ++ y) ∧
+    tailOf (x ++ y) = tailOf (tailOf x ++ y) := lines_append_aux (x.length + 1) x y (by omega)
+
+/-- one codec instance fed in pieces yields the lines of the whole; the tail of the whole is left -/
+theorem chunked_eq : ∀ (ps : List Bytes) (buf : Bytes), LF ∉ buf →
+    chunked buf ps = ((linesOf (buf ++ ps.flatten)).map (fun l => piece (stripCr l)),
+      tailOf (buf ++ ps.flatten)) := by
+  intro ps
+  induction ps with
+  | nil => intro buf h; simp [chunked, linesOf_of_not_mem buf h, tailOf_of_not_mem buf h]
+  | cons p ps ih =>
+    intro buf h
+    simp only [chunked]
+    rw [decodeLoop_spec _ (buf ++ p) (by omega)]
+    simp only
+    rw [ih (tailOf (buf ++ p)) (tailOf_no_lf _)]
+    have e : buf ++ (p :: ps).flatten = (buf ++ p) ++ ps.flatten := by simp
+    obtain ⟨h1, h2⟩ := lines_append (buf ++ p) ps.flatten
+    rw [e, h1, h2]; simp
+
+theorem chunkedAll_eq_splitSpec (pieces : List Bytes) : chunkedAll pieces = splitSpec pieces.flatten := by
+  unfold chunkedAll
+  rw [chunked_eq pieces [] (by simp)]
+  simp only [List.nil_append]
+  rw [eofLoop_tail _ _ (tailOf_no_lf _), splitSpec_eq]
+
+theorem chunkedEof_eq_splitSpec (pieces : List Bytes) : chunkedEof pieces = splitSpec pieces.flatten := by
+  unfold chunkedEof
+  rw [chunked_eq pieces.dropLast [] (by simp), eofAll_eq_splitSpec]
+  simp only [List.nil_append]
+  have hfl : pieces.flatten = pieces.dropLast.flatten ++ pieces.getLastD [] := by
+    cases h : pieces.getLast? with
+    | none => have : pieces = [] := by simpa using h
+              subst this; simp
+    | some l =>
+      obtain ⟨q, rfl⟩ := List.getLast?_eq_some_iff.mp h
+      simp
+  obtain ⟨h1, h2⟩ := lines_append pieces.dropLast.flatten (pieces.getLastD [])
+  rw [hfl, splitSpec_eq (pieces.dropLast.flatten ++ _), h1, h2, splitSpec_eq]
+  simp
+
 end ActixNet.Lines
